@@ -254,7 +254,8 @@ class SSH_Socket(ReadBuf, WriteBuf):
             if s < 0:
                 raise SSH_Socket.InsufficientReadException(e)
 
-    def read_packet(self, sshv: int = 2) -> Tuple[int, bytes]:
+    def read_packet(self, sshv: int = 2, exit_on_error: bool = True) -> Tuple[int, bytes]:
+        '''Reads one packet.  Returns a tuple of the packet type (or -1 on error) and the payload (or the error text).  When exit_on_error is False, an invalid block size or checksum is reported to the caller like any other read error, instead of terminating the program.'''
         try:
             header = WriteBuf()
             self.ensure_read(4)
@@ -275,6 +276,8 @@ class SSH_Socket(ReadBuf, WriteBuf):
                 payload_length = packet_length - padding_length - 1
                 check_size = 4 + 1 + payload_length + padding_length
             if check_size % self.__block_size != 0:
+                if not exit_on_error:
+                    return -1, b'invalid ssh packet (block size)'
                 self.__outputbuffer.fail('[exception] invalid ssh packet (block size)').write()
                 sys.exit(exitcodes.CONNECTION_ERROR)
             self.ensure_read(payload_length)
@@ -290,6 +293,8 @@ class SSH_Socket(ReadBuf, WriteBuf):
             if sshv == 1:
                 rcrc = SSH1.crc32(padding + payload)
                 if crc != rcrc:
+                    if not exit_on_error:
+                        return -1, b'packet checksum CRC32 mismatch.'
                     self.__outputbuffer.fail('[exception] packet checksum CRC32 mismatch.').write()
                     sys.exit(exitcodes.CONNECTION_ERROR)
             else:
